@@ -328,14 +328,15 @@ func pureParseWith(memo string, longLived bool) string {
 func pureParse(memo string) string { return pureParseWith(memo, false) }
 
 func pureParseOn(parser *adapterctrl.IBCParser, memo string) string {
-	p, err := parser.Parse(memo)
-	if err != nil {
+	// the adapter's outermost parsing function (parse, then validate; a payload that fails validation is still returned)
+	p, err := parser.ParsePayload([]byte(memo))
+	if err != nil && p == nil {
 		return "err:p"
 	}
 	if p == nil {
 		return "err:nilpayload"
 	}
-	if err := p.Validate(); err != nil {
+	if err != nil {
 		return "err:v:" + canonPayload(p)
 	}
 	return "ok:" + canonPayload(p)
